@@ -35,6 +35,7 @@ import (
 	ocispec "github.com/opencontainers/image-spec/specs-go/v1"
 	"oras.land/oras-go/v2/content"
 	"oras.land/oras-go/v2/content/file"
+	"oras.land/oras-go/v2/content/memory"
 	"oras.land/oras-go/v2/content/oci"
 	"oras.land/oras-go/v2/errdef"
 	hooks "oras.land/oras-go/v2/verifhooks/c05hooks"
@@ -50,6 +51,19 @@ var errInjected = errors.New("injected read failure")
 type Ev struct {
 	Kind byte // 'D', 'Z', 'F'
 	Data []byte
+	Gen  string // "<len>:<seed>" when Data is pseudo-random data regenerated from a seed (big blobs)
+}
+
+func genBytes(n int, seed uint64) []byte {
+	r := common.NewRand(seed)
+	b := make([]byte, n)
+	for i := 0; i+8 <= n; i += 8 {
+		v := r.U64()
+		for j := 0; j < 8; j++ {
+			b[i+j] = byte(v >> (8 * uint(j)))
+		}
+	}
+	return b
 }
 
 type Push struct {
@@ -69,6 +83,8 @@ type Case struct {
 	Ops    []string
 	Pushes []Push
 	Obs    string // CC: the observed outcome handed to the model for the membership test
+	WMode  string // CW: "fail" (writer returns an error) | "short" (writer reports fewer bytes, no error)
+	WAt    int    // CW: number of bytes the writer accepts before that
 }
 
 func encScript(s []Ev) string {
@@ -79,7 +95,11 @@ func encScript(s []Ev) string {
 	for i, e := range s {
 		switch e.Kind {
 		case 'D':
-			parts[i] = "D" + hex.EncodeToString(e.Data)
+			if e.Gen != "" {
+				parts[i] = "R" + e.Gen
+			} else {
+				parts[i] = "D" + hex.EncodeToString(e.Data)
+			}
 		default:
 			parts[i] = string(e.Kind)
 		}
@@ -96,6 +116,10 @@ func decScript(s string) []Ev {
 		switch {
 		case t == "Z" || t == "F":
 			out = append(out, Ev{Kind: t[0]})
+		case strings.HasPrefix(t, "R"):
+			f := strings.SplitN(t[1:], ":", 2)
+			seed, _ := strconv.ParseUint(f[1], 10, 64)
+			out = append(out, Ev{Kind: 'D', Data: genBytes(int(atoi(f[0])), seed), Gen: t[1:]})
 		case strings.HasPrefix(t, "D"):
 			b, err := hex.DecodeString(t[1:])
 			if err != nil {
@@ -130,6 +154,9 @@ func availOf(s []Ev) int {
 	}
 	return n
 }
+
+// cleanName is the path, relative to the working directory, a file-store name resolves to
+func cleanName(name string) string { return filepath.ToSlash(filepath.Clean(name)) }
 
 func hasFail(s []Ev) bool {
 	for _, e := range s {
@@ -245,6 +272,8 @@ func (c *Case) body() string {
 		return fmt.Sprintf("RA %s %d %s %s %s", common.Hex(p.DG), p.SZ, b2s(p.Comb), c.Lim, encScript(p.Script))
 	case "CB":
 		return fmt.Sprintf("CB %d %s %d %s %s %s", c.BufSz, common.Hex(p.DG), p.SZ, b2s(p.Comb), c.Lim, encScript(p.Script))
+	case "CW":
+		return fmt.Sprintf("CW %d %s %d %s %s %s %s %d", c.BufSz, common.Hex(p.DG), p.SZ, b2s(p.Comb), c.Lim, encScript(p.Script), c.WMode, c.WAt)
 	case "VR":
 		return fmt.Sprintf("VR %s %d %s %s %s", common.Hex(p.DG), p.SZ, b2s(p.Comb), encScript(p.Script), strings.Join(c.Ops, ","))
 	case "PF":
@@ -262,11 +291,15 @@ func (c *Case) body() string {
 			fmt.Fprintf(&sb, " %s %s %s %d %s %s %s", b2s(p.Stop), common.Hex(p.MT), common.Hex(p.DG), p.SZ, b2s(p.Comb), encScript(p.Script), ks)
 		}
 		return sb.String()
-	case "ST", "CC", "PX":
+	case "ST", "CC", "PX", "SX":
 		var sb strings.Builder
 		fmt.Fprintf(&sb, "%s %s %d", c.Op, c.Kind, len(c.Pushes))
 		for _, p := range c.Pushes {
-			fmt.Fprintf(&sb, " %s %s %s %d %s %s", common.Hex(p.Name), common.Hex(p.MT), common.Hex(p.DG), p.SZ, b2s(p.Comb), encScript(p.Script))
+			nm := common.Hex(p.Name)
+			if p.Name != "" { // the model takes the resolved path (path/filepath is not modelled)
+				nm += ":" + common.Hex(cleanName(p.Name))
+			}
+			fmt.Fprintf(&sb, " %s %s %s %d %s %s", nm, common.Hex(p.MT), common.Hex(p.DG), p.SZ, b2s(p.Comb), encScript(p.Script))
 		}
 		return sb.String()
 	}
@@ -277,6 +310,12 @@ func (c *Case) body() string {
 func (c *Case) line() string {
 	b := c.body()
 	i := strings.IndexByte(b, ' ')
+	if c.huge() { // not judged by the model (oracle only)
+		return "HUGE " + b
+	}
+	if c.Op == "SX" || c.Op == "CW" { // oracle only
+		return "SX " + b
+	}
 	l := b[:i] + " " + c.hashes() + b[i:]
 	if c.Obs != "" {
 		l += " OBS " + c.Obs
@@ -303,6 +342,11 @@ func decodeBody(body string) *Case {
 		c.BufSz = int(atoi(f[1]))
 		c.Lim = f[5]
 		c.Pushes = []Push{{DG: common.UnHex(f[2]), SZ: atoi(f[3]), Comb: f[4] == "1", Script: decScript(f[6])}}
+	case "CW":
+		c.BufSz = int(atoi(f[1]))
+		c.Lim = f[5]
+		c.Pushes = []Push{{DG: common.UnHex(f[2]), SZ: atoi(f[3]), Comb: f[4] == "1", Script: decScript(f[6])}}
+		c.WMode, c.WAt = f[7], int(atoi(f[8]))
 	case "VR":
 		c.Pushes = []Push{{DG: common.UnHex(f[1]), SZ: atoi(f[2]), Comb: f[3] == "1", Script: decScript(f[4])}}
 		c.Ops = strings.Split(f[5], ",")
@@ -319,12 +363,12 @@ func decodeBody(body string) *Case {
 			}
 			c.Pushes = append(c.Pushes, p)
 		}
-	case "ST", "CC", "PX":
+	case "ST", "CC", "PX", "SX":
 		c.Kind = f[1]
 		n := int(atoi(f[2]))
 		for i := 0; i < n; i++ {
 			g := f[3+6*i:]
-			c.Pushes = append(c.Pushes, Push{Name: common.UnHex(g[0]), MT: common.UnHex(g[1]), DG: common.UnHex(g[2]),
+			c.Pushes = append(c.Pushes, Push{Name: common.UnHex(strings.SplitN(g[0], ":", 2)[0]), MT: common.UnHex(g[1]), DG: common.UnHex(g[2]),
 				SZ: atoi(g[3]), Comb: g[4] == "1", Script: decScript(g[5])})
 		}
 	default:
@@ -464,6 +508,24 @@ func matches(b []byte, dg string, sz int64) bool {
 	return algOf(dg)+":"+hx == dg
 }
 
+// guard runs f and returns the value of a panic (nil when f returned)
+func guard(f func()) (p any) {
+	defer func() { p = recover() }()
+	f()
+	return nil
+}
+
+const hugeSize = int64(1) << 30 // beyond this the extracted model is not run (Peano numbers)
+
+func (c *Case) huge() bool {
+	for _, p := range c.Pushes {
+		if p.SZ > hugeSize {
+			return true
+		}
+	}
+	return false
+}
+
 func fail(id, sig, msg string, c *Case) {
 	run.OracleFail(id, sig, msg, map[string]string{"line": c.body()})
 }
@@ -481,7 +543,12 @@ func descOf(p Push) ocispec.Descriptor {
 func runRA(id string, c *Case) string {
 	p := c.Pushes[0]
 	r := newReader(p)
-	b, err := content.ReadAll(source(r, c.Lim), descOf(p))
+	var b []byte
+	var err error
+	if pv := guard(func() { b, err = content.ReadAll(source(r, c.Lim), descOf(p)) }); pv != nil {
+		fail(id, "size-panic", fmt.Sprintf("ReadAll panicked for Size %d: %v", p.SZ, pv), c)
+		return "PANIC"
+	}
 	st := streamOf(p.Script)
 	if err == nil {
 		switch {
@@ -523,6 +590,49 @@ func runCB(id string, c *Case) string {
 		}
 	}
 	return fmt.Sprintf("%s %d W%s", errEnum(err), r.delivered, dstr(out.Bytes()))
+}
+
+// a destination that fails or short-writes after WAt bytes
+type faultyWriter struct {
+	buf   bytes.Buffer
+	mode  string
+	left  int
+	fault bool
+}
+
+var errWrite = errors.New("injected write failure")
+
+func (w *faultyWriter) Write(b []byte) (int, error) {
+	if len(b) <= w.left {
+		w.left -= len(b)
+		return w.buf.Write(b)
+	}
+	n := w.left
+	w.buf.Write(b[:n])
+	w.left = 0
+	w.fault = true
+	if w.mode == "short" {
+		return n, nil
+	}
+	return n, errWrite
+}
+
+// CopyBuffer into a failing destination: never nil once the destination lost bytes
+func runCW(id string, c *Case) string {
+	p := c.Pushes[0]
+	r := newReader(p)
+	w := &faultyWriter{mode: c.WMode, left: c.WAt}
+	err := hooks.CopyBuffer(w, source(r, c.Lim), make([]byte, c.BufSz), descOf(p))
+	if err == nil {
+		switch {
+		case w.fault:
+			fail(id, "copybuffer-ignored-write-fault", fmt.Sprintf("the destination %s-wrote after %d bytes but CopyBuffer returned nil", c.WMode, c.WAt), c)
+		case !matches(w.buf.Bytes(), p.DG, p.SZ):
+			fail(id, "copybuffer-accepted-bad", "CopyBuffer returned nil but the destination holds other bytes", c)
+		}
+	}
+	run.Count("cw:" + c.WMode + ":" + map[bool]string{true: "fault", false: "nofault"}[w.fault])
+	return "-"
 }
 
 func runVR(id string, c *Case) string {
@@ -572,6 +682,7 @@ type env struct {
 	ingest  func() int      // left-over temp files (-1: not applicable)
 	close   func()
 	mem     *hooks.Memory
+	blobs   string // oci kinds: the blobs/ directory (watched during races)
 }
 
 func walkFiles(root string, f func(rel string, data []byte)) {
@@ -610,20 +721,32 @@ func newEnv(kind string) *env {
 		m := hooks.NewMemory()
 		return &env{st: content.LimitStorage(m, atoi(kind[3:])), mem: m, listing: func() []string { return memListing(m) },
 			ingest: func() int { return -1 }, close: func() {}}
-	case kind == "oci" || strings.HasPrefix(kind, "olim"):
+	case kind == "memstore": // the public wrapper around cas.Memory
+		ms := memory.New()
+		return &env{st: ms, listing: func() []string { return nil }, ingest: func() int { return -1 }, close: func() {}}
+	case kind == "oci" || strings.HasPrefix(kind, "olim") || kind == "ocistore":
 		root, err := os.MkdirTemp("", "c05oci")
 		if err != nil {
 			panic(err)
 		}
-		s, err := oci.NewStorage(root)
-		if err != nil {
-			panic(err)
+		var st content.Storage
+		if kind == "ocistore" { // the public oci.Store (storage + graph + index.json)
+			os, err := oci.New(root)
+			if err != nil {
+				panic(err)
+			}
+			st = os
+		} else {
+			s, err := oci.NewStorage(root)
+			if err != nil {
+				panic(err)
+			}
+			st = s
+			if strings.HasPrefix(kind, "olim") {
+				st = content.LimitStorage(s, atoi(kind[4:]))
+			}
 		}
-		var st content.Storage = s
-		if strings.HasPrefix(kind, "olim") {
-			st = content.LimitStorage(s, atoi(kind[4:]))
-		}
-		return &env{st: st,
+		return &env{st: st, blobs: filepath.Join(root, "blobs"),
 			listing: func() []string {
 				var out []string
 				walkFiles(filepath.Join(root, "blobs"), func(rel string, data []byte) {
@@ -640,14 +763,27 @@ func newEnv(kind string) *env {
 				return len(ents)
 			},
 			close: func() { os.RemoveAll(root) }}
-	case kind == "file":
+	case strings.HasPrefix(kind, "file"):
 		root, err := os.MkdirTemp("", "c05file")
 		if err != nil {
 			panic(err)
 		}
-		s, err := file.New(root)
+		var s *file.Store
+		if kind == "fileF" { // caller-supplied (unlimited) fallback storage
+			s, err = file.NewWithFallbackStorage(root, hooks.NewMemory())
+		} else {
+			s, err = file.New(root)
+		}
 		if err != nil {
 			panic(err)
+		}
+		switch kind { // store options (oracle only; the model covers the defaults)
+		case "fileD":
+			s.DisableOverwrite = true
+		case "fileC":
+			s.ForceCAS = true
+		case "fileI":
+			s.IgnoreNoName = true
 		}
 		return &env{st: s,
 			listing: func() []string {
@@ -699,14 +835,49 @@ func runST(id string, c *Case) string {
 	defer e.close()
 	var obs []string
 	var accepted [][]byte // ground-truth bytes of the pushes that returned nil
+	// file store: names are compared as strings but written as paths.  owners: the
+	// successful named pushes per resolved path; clobbered: digests whose file was
+	// rewritten or removed by a push under ANOTHER name of the same path (known
+	// finding file-alias-clobbers-visible; matched by this mechanism only)
+	type owner struct {
+		name string
+		d    ocispec.Descriptor
+		want []byte
+	}
+	owners := map[string][]owner{}
+	clobbered := map[string]bool{}
+	const aliasSig = "file-alias-clobbers-visible"
+	isFile := strings.HasPrefix(c.Kind, "file")
 	for i, p := range c.Pushes {
 		d := descOf(p)
+		aliasHit := false
+		if isFile && p.Name != "" {
+			for _, o := range owners[cleanName(p.Name)] {
+				if o.name != p.Name {
+					aliasHit = true
+				}
+			}
+		}
+		vf := func(sig, msg string) {
+			if aliasHit || clobbered[p.DG] {
+				sig = aliasSig
+			}
+			fail(id, sig, msg, c)
+		}
 		_, xBefore := existsStr(e.st, d)
 		lBefore := joinListing(e.listing())
-		err := e.st.Push(ctx, d, newReader(p))
+		var err, ferr error
+		var fb []byte
+		if pv := guard(func() { err = e.st.Push(ctx, d, newReader(p)) }); pv != nil {
+			fail(id, "size-panic", fmt.Sprintf("push %d on %s panicked for Size %d: %v", i+1, c.Kind, p.SZ, pv), c)
+			return "PANIC"
+		}
 		res := errEnum(err)
 		xs, xAfter := existsStr(e.st, d)
-		fb, ferr := content.FetchAll(ctx, e.st, d)
+		if pv := guard(func() { fb, ferr = content.FetchAll(ctx, e.st, d) }); pv != nil {
+			fail(id, "size-panic", fmt.Sprintf("FetchAll after push %d on %s panicked for Size %d: %v", i+1, c.Kind, p.SZ, pv), c)
+			return "PANIC"
+		}
 		fobs := errEnum(ferr)
 		if ferr == nil {
 			fobs = "OK/" + dstr(fb)
@@ -719,6 +890,14 @@ func runST(id string, c *Case) string {
 		tag := fmt.Sprintf("push %d/%d on %s: ", i+1, len(c.Pushes), c.Kind)
 		raw, rerr := rawFetch(e.st, d)
 		lAfter := joinListing(e.listing())
+		if c.Kind == "fileI" && p.Name == "" {
+			// Store.IgnoreNoName: an unnamed push is discarded by documented option (it may
+			// return nil for any content); what must hold is that nothing became visible
+			if xAfter != xBefore || (!xBefore && rerr == nil) {
+				fail(id, "discarded-push-visible", tag+"IgnoreNoName: the discarded content is visible", c)
+			}
+			continue
+		}
 		if err == nil {
 			if why != "" {
 				sig := "push-accepted-bad:" + why
@@ -730,24 +909,40 @@ func runST(id string, c *Case) string {
 				want := st[:p.SZ]
 				accepted = append(accepted, want)
 				if !xAfter {
-					fail(id, "pushed-not-visible", tag+"Push returned nil but Exists is false", c)
+					vf("pushed-not-visible", tag+"Push returned nil but Exists is false")
 				}
 				if rerr != nil || !bytes.Equal(raw, want) {
-					fail(id, "pushed-differs", tag+"Push returned nil but Fetch does not return the first Size bytes of the reader", c)
+					vf("pushed-differs", tag+"Push returned nil but Fetch does not return the first Size bytes of the reader")
 				}
 				if ferr != nil {
-					fail(id, "pushed-fetchall-fails", tag+"Push returned nil but FetchAll fails: "+fobs, c)
+					vf("pushed-fetchall-fails", tag+"Push returned nil but FetchAll fails: "+fobs)
 				}
 			}
 		} else {
 			if xAfter != xBefore {
-				fail(id, "failed-push-visible", tag+"Push failed ("+res+") but Exists changed from "+b2s(xBefore)+" to "+b2s(xAfter), c)
+				vf("failed-push-visible", tag+"Push failed ("+res+") but Exists changed from "+b2s(xBefore)+" to "+b2s(xAfter))
 			}
 			if !xBefore && rerr == nil && !(c.Kind == "file" && false) {
-				fail(id, "failed-push-fetchable", tag+"Push failed ("+res+") but Fetch succeeds", c)
+				vf("failed-push-fetchable", tag+"Push failed ("+res+") but Fetch succeeds")
 			}
 			if lAfter != lBefore { // (file store: the partial file of a failed push is removed again)
-				fail(id, "failed-push-stored", tag+"Push failed ("+res+") but the stored blobs changed: "+lBefore+" -> "+lAfter, c)
+				vf("failed-push-stored", tag+"Push failed ("+res+") but the stored blobs changed: "+lBefore+" -> "+lAfter)
+			}
+		}
+		if isFile && p.Name != "" {
+			path := cleanName(p.Name)
+			for _, o := range owners[path] {
+				if o.name == p.Name {
+					continue
+				}
+				if got, gerr := rawFetch(e.st, o.d); gerr != nil || !bytes.Equal(got, o.want) {
+					clobbered[string(o.d.Digest)] = true
+					fail(id, aliasSig, tag+fmt.Sprintf("a push under the name %q (result %s) changed what Fetch serves for the descriptor pushed under %q (same path %q): %d bytes, err=%v",
+						p.Name, res, o.name, path, len(got), gerr), c)
+				}
+			}
+			if err == nil && why == "" {
+				owners[path] = append(owners[path], owner{name: p.Name, d: d, want: st[:p.SZ]})
 			}
 		}
 		if n := e.ingest(); n > 0 {
@@ -762,30 +957,44 @@ func runST(id string, c *Case) string {
 				}
 			}
 			if !okv {
-				fail(id, "visible-unverified", tag+fmt.Sprintf("Fetch returns %d bytes that no successful Push delivered", len(raw)), c)
+				vf("visible-unverified", tag+fmt.Sprintf("Fetch returns %d bytes that no successful Push delivered", len(raw)))
 			}
 			if okDigest.MatchString(p.DG) {
 				hx, _ := shaHex(algOf(p.DG), raw)
 				if algOf(p.DG)+":"+hx != p.DG {
-					fail(id, "visible-digest-mismatch", tag+"Fetch returns bytes that do not hash to the descriptor's digest", c)
+					vf("visible-digest-mismatch", tag+"Fetch returns bytes that do not hash to the descriptor's digest")
 				}
 			}
 		}
 		if ferr == nil && !matches(fb, p.DG, p.SZ) {
-			fail(id, "fetchall-accepted-bad", tag+"FetchAll returned bytes not matching the descriptor", c)
+			vf("fetchall-accepted-bad", tag+"FetchAll returned bytes not matching the descriptor")
 		}
 	}
 	final := "B=" + joinListing(e.listing())
 	if c.Kind == "oci" || strings.HasPrefix(c.Kind, "olim") {
 		final += fmt.Sprintf(" I=%d", e.ingest())
 	}
-	// every stored blob of a digest-addressed store hashes to its name
-	if c.Kind == "oci" {
-		for _, l := range e.listing() {
-			_ = l
+	// final sweep: every descriptor of the history is queried again on the final state
+	var sweep []string
+	for _, p := range c.Pushes {
+		d := descOf(p)
+		xs, _ := existsStr(e.st, d)
+		var fb []byte
+		var ferr error
+		if pv := guard(func() { fb, ferr = content.FetchAll(ctx, e.st, d) }); pv != nil {
+			fail(id, "size-panic", fmt.Sprintf("FetchAll panicked for Size %d: %v", p.SZ, pv), c)
+			return "PANIC"
 		}
+		fobs := errEnum(ferr)
+		if ferr == nil {
+			fobs = "OK/" + dstr(fb)
+			if !matches(fb, p.DG, p.SZ) {
+				fail(id, "fetchall-accepted-bad", "final sweep: FetchAll returned bytes not matching the descriptor", c)
+			}
+		}
+		sweep = append(sweep, "X"+xs+"/F"+fobs)
 	}
-	return strings.Join(obs, " ") + " " + final
+	return strings.Join(obs, " ") + " " + final + " Q=" + strings.Join(sweep, ",")
 }
 
 // ---------------------------------------------------------------- concurrent pushes of one digest (oracle only)
@@ -812,6 +1021,13 @@ func runCC(id string, c *Case) string {
 			}
 			if raw, err := rawFetch(e.st, d0); err == nil && !bytes.Equal(raw, want) && badSeen == "" {
 				badSeen = fmt.Sprintf("%d bytes visible mid-run, want %d", len(raw), len(want))
+			}
+			if e.blobs != "" { // whatever file exists under blobs/ at any instant is complete and good
+				walkFiles(e.blobs, func(rel string, data []byte) {
+					if !bytes.Equal(data, want) && badSeen == "" {
+						badSeen = fmt.Sprintf("blobs/%s holds %d bytes mid-run, want %d", rel, len(data), len(want))
+					}
+				})
 			}
 			runtime.Gosched()
 		}
@@ -865,7 +1081,7 @@ func runCC(id string, c *Case) string {
 			fail(id, "concurrent-listing", "stored blobs after concurrent pushes: "+joinListing(l), c)
 		}
 	}
-	if c.Kind == "oci" && len(c.Pushes) <= 3 && len(want) <= 120 {
+	if (c.Kind == "oci" || c.Kind == "mem" || strings.HasPrefix(c.Kind, "lim")) && len(c.Pushes) <= 3 && len(want) <= 120 {
 		// trace correspondence: the observed outcome must be a terminal outcome of the
 		// model's transition system (the model answers MEMBER)
 		res := make([]string, len(errs))
@@ -874,6 +1090,7 @@ func runCC(id string, c *Case) string {
 		}
 		c.Obs = fmt.Sprintf("%s %s I=%d", strings.Join(res, ","), joinListing(e.listing()), e.ingest())
 		run.TracesAgainstImpl++
+		run.Count("judged:cc-membership")
 		return "MEMBER"
 	}
 	return "-"
@@ -891,7 +1108,10 @@ func (s scriptedBase) Exists(context.Context, ocispec.Descriptor) (bool, error) 
 
 var pxBlocked bool
 
-func runPX(id string, c *Case) string {
+// a watchdog verdict is only reported after a second, fresh run with a longer limit blocked as well
+func runPX(id string, c *Case) string { return runPXw(id, c, 20*time.Second, true) }
+
+func runPXw(id string, c *Case, limit time.Duration, retry bool) string {
 	p := c.Pushes[0]
 	d := descOf(p)
 	lim, limited := limitOf(c.Kind)
@@ -931,9 +1151,13 @@ func runPX(id string, c *Case) string {
 	var r pxres
 	select {
 	case r = <-ch:
-	case <-time.After(20 * time.Second):
+	case <-time.After(limit):
+		if retry {
+			run.Count("px:watchdog-retry")
+			return runPXw(id, c, 60*time.Second, false)
+		}
 		pxBlocked = true
-		fail(id, "proxy-blocked", fmt.Sprintf("reading %d bytes for Size %d through the caching proxy (%s) did not return within 20s", len(streamOf(p.Script)), p.SZ, c.Kind), c)
+		fail(id, "proxy-blocked", fmt.Sprintf("reading %d bytes for Size %d through the caching proxy (%s) did not return within %v (twice)", len(streamOf(p.Script)), p.SZ, c.Kind, limit), c)
 		return "-"
 	}
 	why := whyBad(p)
@@ -971,7 +1195,9 @@ func (s *switchBase) Fetch(context.Context, ocispec.Descriptor) (io.ReadCloser, 
 }
 func (s *switchBase) Exists(context.Context, ocispec.Descriptor) (bool, error) { return true, nil }
 
-func runPF(id string, c *Case) string {
+func runPF(id string, c *Case) string { return runPFw(id, c, 20*time.Second, true) }
+
+func runPFw(id string, c *Case, limit time.Duration, retry bool) string {
 	cache := hooks.NewMemory()
 	base := &switchBase{}
 	var px *hooks.Proxy
@@ -1011,8 +1237,12 @@ func runPF(id string, c *Case) string {
 		var r stepres
 		select {
 		case r = <-ch:
-		case <-time.After(20 * time.Second):
-			fail(id, "proxy-blocked", fmt.Sprintf("fetch %d through the caching proxy (%s) did not return within 20s", i+1, c.Kind), c)
+		case <-time.After(limit):
+			if retry {
+				run.Count("px:watchdog-retry")
+				return runPFw(id, c, 60*time.Second, false)
+			}
+			fail(id, "proxy-blocked", fmt.Sprintf("fetch %d through the caching proxy (%s) did not return within %v (twice)", i+1, c.Kind, limit), c)
 			return "BLOCKED"
 		}
 		obs = append(obs, r.obs)
@@ -1062,8 +1292,13 @@ func runCase(c *Case) {
 		obs = runCB(id, c)
 	case "VR":
 		obs = runVR(id, c)
-	case "ST":
+	case "ST", "SX":
 		obs = runST(id, c)
+		if c.Op == "SX" {
+			obs = "-"
+		}
+	case "CW":
+		obs = runCW(id, c)
 	case "CC":
 		obs = runCC(id, c)
 	case "PX":
@@ -1084,6 +1319,15 @@ func runCase(c *Case) {
 		run.Count("store:" + k)
 	}
 	for _, p := range c.Pushes {
+		if p.Name != "" && cleanName(p.Name) != p.Name {
+			run.Count("gen:alias-name")
+		}
+		if p.SZ > hugeSize {
+			run.Count("gen:huge-size")
+		}
+		if len(streamOf(p.Script)) > 1<<20 {
+			run.Count("gen:blob>1MiB")
+		}
 		w := whyBad(p)
 		if w == "" {
 			w = "good"
@@ -1182,6 +1426,10 @@ var badDigests = []func(good string) string{
 	func(g string) string { return ":" + g[len(algOf(g))+1:] },
 	func(g string) string { return g + ":" + g },
 	func(g string) string { return " " + g },
+	func(g string) string { return g + "\n" },
+	func(g string) string { return g[:10] + "\x00" + g[11:] },
+	func(g string) string { return g[:len(g)-2] + "\u00e9" },
+	func(g string) string { return "sha256\n:" + g[len(algOf(g))+1:] },
 }
 
 // genPush derives a (descriptor, reader) pair from good data; most are faulty in one way.
@@ -1213,6 +1461,9 @@ func genPush(r *common.Rand, data []byte) Push {
 		p.SZ -= int64(1 + r.Intn(2))
 	case k < 17:
 		p.SZ = 0
+		if r.Chance(1, 2) { // a size no allocation can satisfy
+			p.SZ = common.Pick(r, []int64{1 << 62, 1<<63 - 1, 1<<62 + 12345})
+		}
 	case k < 20:
 		p.SZ = -int64(1 + r.Intn(5))
 		if r.Chance(1, 2) { // the empty blob with a negative size
@@ -1247,6 +1498,10 @@ func genPush(r *common.Rand, data []byte) Push {
 		evs := chunk(r, stream, zeros)
 		at := r.Intn(len(evs) + 1)
 		evs = append(evs[:at:at], append([]Ev{{Kind: 'F'}}, evs[at:]...)...)
+		if r.Chance(1, 3) { // a reader that keeps going after an error and fails again
+			at2 := r.Intn(len(evs) + 1)
+			evs = append(evs[:at2:at2], append([]Ev{{Kind: 'F'}}, evs[at2:]...)...)
+		}
 		p.Script = evs
 	case k < 19: // empty reader
 		p.Script = nil
@@ -1260,7 +1515,10 @@ func genPush(r *common.Rand, data []byte) Push {
 }
 
 func genName(r *common.Rand) string {
-	return common.Pick(r, []string{"a", "b", "data.bin", "x1", "layer.tar"})
+	if r.Chance(1, 4) { // a second spelling of one of the plain names (same resolved path)
+		return common.Pick(r, []string{"./a", "x/../a", "sub/../b", "./data.bin", "./x1", "a/.", "sub/./f", "sub/f"})
+	}
+	return common.Pick(r, []string{"a", "b", "data.bin", "x1", "layer.tar", "sub/f"})
 }
 
 func genHistory(r *common.Rand, kind string) *Case {
@@ -1304,12 +1562,12 @@ func genHistory(r *common.Rand, kind string) *Case {
 func genSingle(r *common.Rand, op string) *Case {
 	p := genPush(r, genData(r))
 	c := &Case{Op: op, Lim: "-", Pushes: []Push{p}}
-	if r.Chance(1, 6) {
-		c.Lim = strconv.FormatInt(p.SZ+int64(r.Intn(3))-1, 10)
+	if r.Chance(1, 5) && p.SZ < hugeSize {
+		c.Lim = strconv.FormatInt(common.Pick(r, []int64{0, 1, p.SZ - 2, p.SZ - 1, p.SZ, p.SZ + 1, p.SZ + 2, 1 << 20}), 10)
 	}
 	switch op {
 	case "CB":
-		c.BufSz = common.Pick(r, []int{1, 1, 2, 3, 5, 8, 16, 64, 4096})
+		c.BufSz = common.Pick(r, []int{1, 1, 2, 3, 5, 8, 16, 64, 4096, 100000})
 	case "VR":
 		c.Lim = "-"
 		n := 1 + r.Intn(8)
@@ -1365,10 +1623,56 @@ func genProxy(r *common.Rand) *Case {
 			prev := c.Pushes[r.Intn(i)]
 			p.DG, p.SZ, p.MT = prev.DG, prev.SZ, prev.MT
 		}
+		if p.SZ > hugeSize { // a panic in the proxy's push goroutine cannot be recovered by the harness
+			p.SZ = int64(len(data)) + 1
+		}
 		p.Stop = r.Chance(1, 5)
 		p.Ks = genKs(r, len(streamOf(p.Script)))
 		c.Pushes = append(c.Pushes, p)
 	}
+	return c
+}
+
+// oracle-only histories on the public wrappers and on file-store options
+func genOption(r *common.Rand) *Case {
+	kind := common.Pick(r, []string{"ocistore", "memstore", "fileD", "fileC", "fileI", "fileF"})
+	base := "mem"
+	if strings.HasPrefix(kind, "file") {
+		base = "file"
+	}
+	c := genHistory(r, base)
+	c.Op, c.Kind = "SX", kind
+	return c
+}
+
+// blobs larger than every buffer on the way (1 MiB pool buffer, 32 KiB copy buffer,
+// 16 MiB ReadAll preallocation bound); pseudo-random data regenerated from a seed
+func genHugeBlob(r *common.Rand, kind string, n int) *Case {
+	seed := r.U64() >> 1
+	data := genBytes(n, seed)
+	p := Push{MT: mediaTypes[0], DG: digestFor("sha256", data), SZ: int64(len(data))}
+	p.Script = []Ev{{Kind: 'D', Data: data, Gen: fmt.Sprintf("%d:%d", n, seed)}}
+	switch r.Intn(5) {
+	case 0:
+		p.SZ++ // one byte short
+	case 1:
+		p.Script = append(p.Script, Ev{Kind: 'D', Data: []byte{1}}) // trailing byte
+	case 2:
+		p.DG = digestFor("sha256", data[:len(data)-1])
+	case 3:
+		p.Script = append(p.Script, Ev{Kind: 'F'})
+	}
+	if strings.HasPrefix(kind, "file") {
+		p.Name = "huge.bin"
+	}
+	return &Case{Op: "SX", Kind: kind, Pushes: []Push{p}}
+}
+
+func genFaultyWrite(r *common.Rand) *Case {
+	c := genSingle(r, "CB")
+	c.Op = "CW"
+	c.WMode = common.Pick(r, []string{"fail", "short"})
+	c.WAt = r.Intn(len(streamOf(c.Pushes[0].Script)) + 2)
 	return c
 }
 
@@ -1402,7 +1706,7 @@ func genBig(r *common.Rand, kind string) *Case {
 func genConcurrent(r *common.Rand, kind string) *Case {
 	size := 1 + r.Intn(3000)
 	n := 1 + r.Intn(4)
-	if kind == "oci" && r.Chance(2, 3) { // small enough for the model's exhaustive interleaving
+	if (kind == "oci" || kind == "mem" || strings.HasPrefix(kind, "lim")) && r.Chance(2, 3) { // small enough for the model's exhaustive interleaving
 		n = 1 + r.Intn(2)
 		size = 1 + r.Intn(120)
 	}
@@ -1429,7 +1733,18 @@ func genConcurrent(r *common.Rand, kind string) *Case {
 		default: // trailing
 			p.Script = chunk(r, append(append([]byte(nil), data...), 1), false)
 		}
+		if r.Chance(1, 5) { // same digest, another Size: never acceptable
+			p.SZ = good.SZ + common.Pick(r, []int64{1, -1})
+			if p.SZ < 0 {
+				p.SZ = 1
+			}
+		}
 		c.Pushes = append(c.Pushes, p)
+	}
+	if strings.HasPrefix(kind, "file") { // one digest under two names, one name twice
+		for i := range c.Pushes {
+			c.Pushes[i].Name = common.Pick(r, []string{"n1", "n1", "n2"})
+		}
 	}
 	return c
 }
@@ -1502,17 +1817,49 @@ func main() {
 		runCase(genBig(r, common.Pick(r, []string{"oci", "file", "mem"})))
 	}
 	for i := 0; i < run.Scale(400, 6000); i++ {
-		runCase(genConcurrent(r, common.Pick(r, []string{"oci", "oci", "mem", "lim1000000"})))
+		runCase(genConcurrent(r, common.Pick(r, []string{"oci", "oci", "mem", "lim1000000", "file", "file", "ocistore"})))
 	}
 	for i := 0; i < run.Scale(700, 15000); i++ {
 		runCase(genProxy(r))
 	}
 	for i := 0; i < run.Scale(300, 15000); i++ {
 		p := genPush(r, genData(r))
+		if p.SZ > hugeSize {
+			p.SZ = 3
+		}
 		kind := "mem"
 		if r.Chance(1, 3) {
 			kind = fmt.Sprintf("lim%d", p.SZ+int64(r.Intn(3))-1)
 		}
 		runCase(&Case{Op: "PX", Kind: kind, Pushes: []Push{p}})
+	}
+	for i := 0; i < run.Scale(900, 30000); i++ {
+		runCase(genOption(r))
+	}
+	for i := 0; i < run.Scale(400, 10000); i++ {
+		runCase(genFaultyWrite(r))
+	}
+	for i := 0; i < run.Scale(6, 60); i++ {
+		runCase(genHugeBlob(r, common.Pick(r, []string{"oci", "file", "mem", "ocistore"}), 1<<20+1+r.Intn(600000)))
+	}
+	for i := 0; i < run.Scale(2, 8); i++ { // beyond ReadAll's preallocation bound
+		runCase(genHugeBlob(r, "mem", 16<<20+1+r.Intn(100000)))
+	}
+
+	// coverage floors: a stream that produced nothing is a broken check, not a pass
+	var missing []string
+	for _, k := range []string{"op:RA", "op:CB", "op:VR", "op:ST", "op:CC", "op:PF", "op:PX", "op:SX", "op:CW",
+		"store:mem", "store:lim", "store:oci", "store:olim", "store:file", "store:ocistore", "store:memstore",
+		"store:fileD", "store:fileC", "store:fileI", "store:fileF",
+		"input:good", "input:good+trailing", "input:bad-digest", "input:digest-mismatch", "input:negative-size", "input:short-or-failed",
+		"cw:fail:fault", "cw:short:fault", "judged:cc-membership", "gen:alias-name", "gen:huge-size", "gen:blob>1MiB"} {
+		if run.Dist[k] == 0 {
+			missing = append(missing, k)
+		}
+	}
+	if len(missing) > 0 {
+		run.Finish()
+		fmt.Fprintln(os.Stderr, "coverage floor violated, nothing generated/judged for:", strings.Join(missing, " "))
+		os.Exit(3)
 	}
 }
